@@ -1231,6 +1231,37 @@ func ruleC07Records(c *Ctx) {
 				fmt.Sprintf("a successful evaluation of %s can reach the success exit without %s: the evaluated children would later be handed to unevaluated* again (or a parent's unevaluated* would re-apply to them)", src, what))
 		}
 	}
+	nEnd := 0
+	// the end index is exclusive (the complement starts at it): what is recorded is a count of evaluated positions, never
+	// the position of the last evaluated item itself
+	c.eachFamOwn(m.E, func(i ssa.Instruction) {
+		call, ok := i.(*ssa.Call)
+		if !ok {
+			return
+		}
+		callee := call.Call.StaticCallee()
+		if callee == nil || shortFuncName(callee) != "noteEndIndex" || len(call.Call.Args) != 2 || !m.isFrameAnns(call.Call.Args[0]) {
+			return
+		}
+		arg := call.Call.Args[1]
+		nEnd++
+		position := ""
+		core.EachInstr(call.Parent(), func(j ssa.Instruction) {
+			ic, ok := j.(*ssa.Call)
+			if !ok || core.CalleeKey(&ic.Call) != "reflect.Value.Index" || len(ic.Call.Args) != 2 {
+				return
+			}
+			for _, src := range append(traceSources(arg), arg) {
+				if src == ic.Call.Args[1] {
+					if _, isConst := src.(*ssa.Const); !isConst {
+						position = c.pos(ic)
+					}
+				}
+			}
+		})
+		c.R.Check(position == "", rule, fmt.Sprintf("endIndex:exclusive#%d", nEnd), c.pos(call), "the end index recorded is a count of positions, not the position of an item",
+			"the value recorded as the end of the evaluated prefix is the index of an item that was just evaluated (the same value indexes the instance at "+position+"), but the end index is exclusive: the last evaluated item is handed to unevaluatedItems again")
+	})
 	c.R.Floor(rule, "child evaluation sites that must record", n, 7)
 	// the per-schema set reaches the record
 	if evalPropsCell == nil {
